@@ -905,8 +905,11 @@ def _dipole_vector(grid, points, decimals=9, nodes=None):
                 rz = (x_c[2] - nodes_z[iz]) / grid.h[2][iz]
                 ez = 1 - rz
 
-                # Add to field (only if segment inside cell).
-                if min(rx, ex, ry, ey, rz, ez) >= 0 and np.max(abs(ar-al)) > 0:
+                # Add to field (only if segment inside cell). The nodes are
+                # rounded, the widths are not: allow for the rounding.
+                rtol = -2*10.0**(-decimals)/min(
+                        grid.h[0][ix], grid.h[1][iy], grid.h[2][iz])
+                if min(rx, ex, ry, ey, rz, ez) >= rtol and ar > al:
 
                     vfield.fx[ix, iy, iz] += ey*ez*x_len
                     vfield.fx[ix, iy+1, iz] += ry*ez*x_len
